@@ -132,6 +132,10 @@ pub struct Renderer<'a, 'b> {
     prefix: String,
     /// constructs that must not be drawn because a known finding would swamp the search
     pub avoid: Vec<&'static str>,
+    /// true while the type being printed is a direct member of an intersection (an object there is not split again:
+    /// splitting a member changes how many members the intersection has, which is not the rewrite being tested)
+    inter_member: bool,
+    direct_inter_member: bool,
 }
 
 fn reaches(env: &Env, from: usize, target: usize, seen: &mut Vec<bool>) -> bool {
@@ -193,6 +197,8 @@ impl<'a, 'b> Renderer<'a, 'b> {
             inline_budget: 6,
             prefix: prefix.to_string(),
             avoid: vec![],
+            inter_member: false,
+            direct_inter_member: false,
         }
     }
 
@@ -325,6 +331,8 @@ impl<'a, 'b> Renderer<'a, 'b> {
                 }
             }
         }
+        let direct = std::mem::replace(&mut self.inter_member, false);
+        self.direct_inter_member = direct;
         let base = self.ty_inner(d, path);
         self.wrap(base, d)
     }
@@ -527,7 +535,9 @@ impl<'a, 'b> Renderer<'a, 'b> {
                 let mut parts = vec![];
                 for (i, m) in ms.iter().enumerate() {
                     path.push(i);
+                    self.inter_member = true;
                     let t = self.ty_at(m, path);
+                    self.inter_member = false;
                     path.pop();
                     parts.push(need(t, Prec::Inter));
                 }
@@ -569,7 +579,13 @@ impl<'a, 'b> Renderer<'a, 'b> {
         if is_const_expressible(d) && self.take(Feat::Typeof) && self.s.chance(1, 2) {
             self.mark("typeof_const");
             let c = self.fresh("c");
-            match self.s.below(3) {
+            match self.s.below(4) {
+                3 => {
+                    // a constant with a type annotation: typeof reads the annotation
+                    self.mark("typeof_const_annotated");
+                    self.decls.push(format!("const {}: {} = {};", c, plain, const_expr(d)));
+                    return Txt { s: format!("typeof {}", c), p: Prec::Prefix };
+                }
                 0 => {
                     self.decls.push(format!("const {} = {} as const;", c, const_expr(d)));
                     return Txt { s: format!("typeof {}", c), p: Prec::Prefix };
@@ -625,6 +641,8 @@ impl<'a, 'b> Renderer<'a, 'b> {
     }
 
     fn object(&mut self, props: &[Prop], index: Option<&D>, path: &mut Vec<usize>) -> Txt {
+        // read once: nested types printed below must not see it
+        let direct_member = std::mem::replace(&mut self.direct_inter_member, false);
         let all: Vec<usize> = (0..props.len()).collect();
         if let Some(ix) = index {
             path.push(props.len());
@@ -710,7 +728,7 @@ impl<'a, 'b> Renderer<'a, 'b> {
                 _ => {}
             }
         }
-        if !generic && props.len() >= 2 && self.take(Feat::SplitInter) {
+        if !generic && props.len() >= 2 && !direct_member && self.take(Feat::SplitInter) {
             self.mark("object_as_intersection");
             let cut = self.s.range(1, props.len() - 1);
             let a = self.members_detached(&props[..cut]);
@@ -739,6 +757,12 @@ impl<'a, 'b> Renderer<'a, 'b> {
         if !generic && all_required && !props.is_empty() && props.iter().all(|p| is_const_expressible(&p.ty)) && self.take(Feat::Typeof) {
             self.mark("typeof_const_object");
             let c = self.fresh("c");
+            if self.s.chance(1, 3) {
+                self.mark("typeof_const_annotated");
+                let m = self.members_detached(props);
+                self.decls.push(format!("const {}: {{ {} }} = {};", c, m, const_expr(&D::Object { props: props.to_vec(), index: None })));
+                return Txt { s: format!("typeof {}", c), p: Prec::Prefix };
+            }
             self.decls.push(format!("const {} = {} as const;", c, const_expr(&D::Object { props: props.to_vec(), index: None })));
             return Txt { s: format!("typeof {}", c), p: Prec::Prefix };
         }
